@@ -189,9 +189,15 @@ func runHTTP(m map[string]string) (out string) {
 	g := shot.HTTPGunConf{Type: m["gun"], AutoTag: m["auto"] == "1", Elements: atoi(m["el"], 0), NoTagOnly: m["nto"] == "1",
 		RHTimeoutMs: atoi(m["rht"], 0)}
 	inst := atoi(m["inst"], 1)
+	var r6Note *r3Note
 	if m["ovf"] != "" {
 		// round 6: the pool runs with `discard_overflow` set explicitly; the target logs which requests it saw
-		hits := r6NoteRequests(reqs)
+		watch := ""
+		if m["cxf"] != "" {
+			watch = "q" + m["cxf"]
+		}
+		hits, note := r6NoteRequests(reqs, watch)
+		r6Note = note
 		defer func() { out += " hits=" + hits() }()
 	}
 	// one run of the pool; plain: with `dial: {dns-cache: false}` (round 4: the reference run of a `dref=1` case). A named
@@ -230,6 +236,10 @@ func runHTTP(m map[string]string) (out string) {
 		}
 		if m["ovf"] != "" {
 			conf = r6Overflow(conf, m, len(reqs))
+		}
+		if m["cxf"] != "" && r6Note != nil {
+			// round 6: cancel the run while request cxf is in flight
+			o.cancelOn, o.cancelDelay, o.extraWait = r6Note.ch, 300*time.Millisecond, 6*time.Second
 		}
 		if m["atd"] != "" {
 			conf = r6WrittenAutoTag(conf, m["atd"])
@@ -1516,6 +1526,9 @@ func class(input, obs string) string {
 		}
 		if m["atd"] != "" {
 			c += ":autotag-defaults"
+		}
+		if m["cxf"] != "" {
+			c += ":cancel-in-flight"
 		}
 		if m["ovf"] != "" {
 			c += ":overflow" + m["ovf"]
